@@ -1,5 +1,5 @@
 (** C03 - Dependencies: never start early; failure/cancel propagates to all dependents. *)
-From HQ Require Import Base.Prelude Cluster.Types Cluster.Core Cluster.Reactor Cluster.Worker Cluster.Server Cluster.Sys Cluster.Monitors Cluster.ProofsJob Cluster.ProofsCore Cluster.ProofsMore.
+From HQ Require Import Base.Prelude Cluster.Types Cluster.Core Cluster.Reactor Cluster.Worker Cluster.Server Cluster.Sys Cluster.Monitors Cluster.ProofsJob Cluster.ProofsCore Cluster.ProofsMore Cluster.BijFinal Cluster.RejHyp Cluster.InvAll.
 From Coq Require Import ZArith.
 Local Open Scope N_scope.
 
@@ -11,4 +11,32 @@ Theorem C03_take_one_highest : forall q id q',
   forall e, In e (q_ready q) -> exists e0, In e0 (q_ready q) /\ tid_mem id (qe_ids e0) = true /\ (qe_prio e <= qe_prio e0)%Z.
 Proof. exact take_one_highest. Qed.
 
+(** The dependency bookkeeping of the core is exact in EVERY reachable state ([deps_ok]: the counter
+    of a waiting task is the number of its dependencies still in the core, a task in any other state
+    has none left, consumer lists mirror the dependency edges). *)
+Theorem C03_dependency_invariant : forall ops reserve maxfill s outs,
+  Forall op_wf ops -> run_fresh (init_sys reserve maxfill) ops = true -> run (init_sys reserve maxfill) ops = Ok (s, outs) ->
+  forallb (deps_ok (s_core s)) (c_tasks (s_core s)) = true.
+Proof. exact deps_invariant_reachable. Qed.
+
+(** "A task is never started before every task it depends on has finished": a task that is no
+    longer Waiting (assigned, prefilled, being retracted, running) has NO dependency left in the
+    core, and neither has a task the scheduler may take (Waiting with counter 0).  A dependency
+    leaves the core only by finishing - a failed or cancelled one takes its dependents with it
+    ([C14] / [task_failed] remove the transitive consumers in the same step). *)
+Theorem C03_placed_task_has_no_pending_dependency : forall ops reserve maxfill s outs,
+  Forall op_wf ops -> run_fresh (init_sys reserve maxfill) ops = true -> run (init_sys reserve maxfill) ops = Ok (s, outs) ->
+  forall t, In t (c_tasks (s_core s)) -> (match t_state t with Waiting _ => False | _ => True end) ->
+  forall d, In d (t_deps t) -> find_task (c_tasks (s_core s)) d = None.
+Proof. exact placed_task_has_no_pending_dependency. Qed.
+
+Theorem C03_ready_task_has_no_pending_dependency : forall ops reserve maxfill s outs,
+  Forall op_wf ops -> run_fresh (init_sys reserve maxfill) ops = true -> run (init_sys reserve maxfill) ops = Ok (s, outs) ->
+  forall t, In t (c_tasks (s_core s)) -> t_state t = Waiting 0 ->
+  forall d, In d (t_deps t) -> find_task (c_tasks (s_core s)) d = None.
+Proof. exact ready_task_has_no_pending_dependency. Qed.
+
+Print Assumptions C03_dependency_invariant.
+Print Assumptions C03_placed_task_has_no_pending_dependency.
+Print Assumptions C03_ready_task_has_no_pending_dependency.
 Print Assumptions C03_take_one_highest.
